@@ -279,7 +279,32 @@ func (e *Engine) allQueriesHostile() {
 	}
 }
 
+// c15ArgumentMismatch: requests whose redundant argument does not match the entry they name (an unlink that states
+// another local token than the pair's - one that another pair of the same domain carries, one that no pair carries,
+// none) touch the named entry or nothing, never another one. Judged by the pair-interference monitor and the state tap.
+func c15ArgumentMismatch(rc *RunCtx) {
+	e, err := StdEngine(rc, false, false, func(gs *ct.GenesisState, cfg *chain.Config) {
+		gs.TokenPairList = []ct.TokenPair{{RemoteDomain: 0, RemoteToken: Token(0), LocalToken: "uusdc"}, {RemoteDomain: 0, RemoteToken: Token(1), LocalToken: "ueure"},
+			{RemoteDomain: 0, RemoteToken: Token(2), LocalToken: "uusdc2"}, {RemoteDomain: 1, RemoteToken: Token(0), LocalToken: "uusdc"}, {RemoteDomain: 0xffffffff, RemoteToken: Token(4), LocalToken: "ueure"}}
+	})
+	if err != nil {
+		rc.Cov.Inconclusive("argument mismatch: " + err.Error())
+		return
+	}
+	e.LightQueries = false
+	for i, lt := range []string{"ueure", "uusdc2", "nothing", "", "UEURE", "ueure"} {
+		tok := Token(i % 3)
+		r := e.Exec(Tx{Msgs: msgs1(&ct.MsgUnlinkTokenPair{From: e.M.TC, RemoteDomain: 0, RemoteToken: tok, LocalToken: lt}), Note: "C15 argument mismatch: unlink stating another local token"})
+		rc.Cov.Cell("C15_argument_mismatch", fmt.Sprintf("unlink/%q/%s", lt, okWord(r.OK)))
+		e.Exec(Tx{Msgs: msgs1(&ct.MsgLinkTokenPair{From: e.M.TC, RemoteDomain: 0, RemoteToken: tok, LocalToken: []string{"uusdc", "ueure", "uusdc2"}[i%3]}), Note: "C15 argument mismatch: link again"})
+		e.FullQueryCheck(nil, []uint64{2, 100})
+	}
+}
+
 func runC15(rc *RunCtx) {
+	if rc.Shard == 0 {
+		c15ArgumentMismatch(rc)
+	}
 	for h := 0; h < rc.Pick(3, 10); h++ {
 		e, err := NewHistoryEngine(rc, GenOpts{Unpaused: h%2 == 0, FixedRoles: h%3 == 0, MixedCasePair: true}, h%3 == 1, false)
 		if err != nil {
